@@ -16,8 +16,8 @@ RULE = ('cases: a random molecule with >=1 acyclic C=C whose chosen substituents
         'all variants agree with the truth; every stored tuple is a path with a double bond in the middle; '
         'chiral sits on exactly the labelled atoms with the written label. non-trivial = a variant with the '
         'stereo double bond itself cut, or >=2 fragments; distinct = molecule + partitions')
-ASSUMPTIONS = ['substituents of a stereo double bond are saturated and not part of another stereo unit '
-               '(pysmiles rejects conjugated marks loudly)',
+ASSUMPTIONS = ['substituents of a stereo double bond are saturated (pysmiles rejects conjugated marks loudly); a substituent may '
+               'be shared by two double bonds, but renderings in which its two marks differ are excluded (one mark per atom in the reader and in pysmiles; consistent across fragmentations, hence not a violation of this property)',
                'no other double bond has an atom with two neighbours that take part in slash marks (pysmiles rejects '
                'that loudly as conflicting assignment; cgsmiles inherits it)']
 
@@ -85,14 +85,17 @@ def gen_stereo_mol(R, nunits, extra):
     protected = set()      # atoms that must keep single bonds only (ligands) / no further multiple bonds (anchors)
     ligands = set()
 
-    def new_unit(attach):
+    def new_unit(attach, share=False):
         a = m.add_atom('C')
         b = m.add_atom('C')
         m.add_bond(a, b, 2)
         if attach is not None:
             m.add_bond(attach, a, 1)
-        la = m.add_atom(R.choice(LIG_ELEMS))
-        m.add_bond(a, la, 1)
+        if share:
+            la = attach          # one atom is the marked substituent of two double bonds (skipped diene)
+        else:
+            la = m.add_atom(R.choice(LIG_ELEMS))
+            m.add_bond(a, la, 1)
         lb = m.add_atom(R.choice(LIG_ELEMS))
         m.add_bond(b, lb, 1)
         protected.update((a, b, la, lb))
@@ -100,6 +103,10 @@ def gen_stereo_mol(R, nunits, extra):
         stereo.append(dict(a=a, b=b, la=la, lb=lb, rel=R.choice(['cis', 'trans'])))
     new_unit(None)
     for _ in range(nunits - 1):
+        shared = [i for i in sorted(ligands) if m.free(i) >= 1 and m.atoms[i]['element'] in ('C', 'N')]
+        if shared and R.chance(0.4):
+            new_unit(R.choice(shared), share=True)
+            continue
         cands = [i for i in range(len(m.atoms)) if m.free(i) >= 1 and i not in protected]
         if not cands:
             # spacer on a ligand
@@ -169,6 +176,7 @@ def gen(R, tier):
                 if sum(1 for z in m.nbrs(x) if z != y and z in tagged) >= 2:
                     return None
     variants = []
+    dropped = 0
     for v in range(4):
         owner = [0] * len(m.atoms) if v == 0 else partition_keep(R, m, stereo, R.choice([2, 3, 4]))
         slash = {}
@@ -181,6 +189,19 @@ def gen(R, tier):
                                            annot={i: 'x=%s' % c for i, c in chir.items()}, slash=slash)
         if text is None:
             continue
+        # an atom that is the marked substituent of two double bonds keeps ONE mark per atom in the
+        # reader's data model (as in pysmiles): renderings in which its two marks differ are read
+        # consistently for every fragmentation, but not with the relation the generator drew, so
+        # they cannot be compared with the ground truth and are outside the domain of this oracle
+        conflict = False
+        ligs = [s_[k] for s_ in stereo for k in ('la', 'lb')]
+        for L in {x for x in ligs if ligs.count(x) > 1}:
+            marks = {t for (u, w, t) in info['slashes'] if L in (u, w)}
+            if len(marks) > 1:
+                conflict = True
+        if conflict:
+            dropped += 1
+            continue
         cut_at_double = [owner[s['a']] != owner[s['b']] for s in stereo]
         variants.append(dict(input=text, posmap={str(i): list(p) for i, p in info['posmap'].items()}, nfr=info['nfr'],
                              cut_at_double=any(cut_at_double)))
@@ -191,6 +212,11 @@ def gen(R, tier):
         feats.add('cut_at_double_bond')
     if any(v['nfr'] >= 2 for v in variants):
         feats.add('multi_fragment')
+    ligs = [s_[k] for s_ in stereo for k in ('la', 'lb')]
+    if len(set(ligs)) < len(ligs):
+        feats.add('substituent_shared_by_two_double_bonds')
+    if dropped:
+        feats.add('variant_dropped:conflicting_marks_on_shared_substituent')
     return dict(input=variants[-1]['input'], variants=variants, stereo=stereo, chir={str(k): v for k, v in chir.items()},
                 model=m.to_json(), features=sorted(feats))
 
